@@ -45,7 +45,7 @@ RULE = (
     "cached state; 16 server-side variants (Host / Content-Type / Content-Length / QUERY_STRING / PATH_INFO absent, "
     "IPv6 / unix SERVER_NAME, https / wss, GET) x hostile variables; plain dict/list storage classes; (c) 7 pairs of "
     "hostile variables and 23 content types x 26 bodies x 6 Content-Length forms, and a multipart part-header product "
-    "(13 Content-Disposition x 12 Content-Type x 6 Content-Length x 5 payloads, header-name case, bare LF); (d) ramps: "
+    "(22 Content-Disposition x 16 Content-Type x 6 Content-Length x 5 payloads, header-name case, bare LF); a parameter-shape product for every options-carrying parser and variable (names empty / marker-only / continuation / real x token, quoted, empty and charset values x 7 tails x heads x separators); every returned object is also printed and re-serialised (repr, str, to_header); (d) ramps: "
     "prefix + (atom | ordered pair of 12 structural atoms | 17 patterns) x 64 / 4096 (+512 thorough; single characters "
     "also x 8192). non-trivial = distinct (call site family, input) with a non-alphanumeric character (kept for <= 3 "
     "atoms); outcomes = distinct (call site, returned | HTTP exception | other exception)."
@@ -56,7 +56,8 @@ ASSUMPTIONS = [
     "only one (two for the pair family) variable is hostile at a time, the rest of the environ is a well-formed POST",
     "strings are <= 4 atoms (ramps <= 8200 characters); a crash that needs a longer specific text is out of reach",
     "non-termination = one call using more than 5 s of CPU on an input of <= 8200 characters",
-    "exceptions from methods that serialise a parsed object back to text (to_header/str/repr) are not in scope",
+    "a parsed value must also be printable and re-serialisable: repr / str / to_header of every returned object is "
+    "called and judged like the parse itself (reported under the separate signature ...:redump:<what>:<Type>)",
 ]
 LEVEL_TEXT = (
     "Exhaustive small-scope enumeration: all strings of <= 3 (4) atoms over an alphabet built from the character "
@@ -79,7 +80,7 @@ from werkzeug.datastructures import (  # noqa: E402
     IfRange, LanguageAccept, MIMEAccept, MultiDict, Range, RequestCacheControl, ResponseCacheControl,
     WWWAuthenticate,
 )
-from werkzeug.datastructures import CombinedMultiDict, ImmutableDict  # noqa: E402
+from werkzeug.datastructures import CombinedMultiDict, FileStorage, ImmutableDict  # noqa: E402
 from werkzeug.datastructures.cache_control import _CacheControl  # noqa: E402
 from werkzeug.exceptions import HTTPException  # noqa: E402
 from werkzeug.sansio import http as sansio_http  # noqa: E402
@@ -115,10 +116,11 @@ X_NONE: list = []
 # RFC 2231 continuations, complete dates with odd zones, octal escapes, trusted hosts with ports ...)
 NASTY = ['"', "\\", ";", ",", "=", "*", " ", "\xff", "%", "'", "-", "a"]
 G_OPT = ["text/html", "; charset=", "utf-8", "multipart/form-data", "; boundary=", "form-data", "; name=", "; filename*=",
-         "; k*=", "UTF-8''", "%E2%82%AC", "; k*0=", "; k*1*=", "; k*0*=", '"a b"', "iso-8859-1'en'", "us-ascii''", "x''"]
+         "; k*=", "UTF-8''", "%E2%82%AC", "; k*0=", "; k*1*=", "; k*0*=", '"a b"', "iso-8859-1'en'", "us-ascii''", "x''",
+         ";*=", ";*0*=", ";="]
 G_LIST = ["a", '"a, b"', ", ", '"a\\"b"', "b c", '""']
 G_ACC = ["text/html", "text/*", "*/*", "*/html", "a;q=", ";q=", "0.5", "1.5", "-1", "0", "1.000", ", ", ";level=1",
-         "en-US", "en", "zh-Hant-TW", "utf-8", "gzip", "*", '"0.5"']
+         "en-US", "en", "zh-Hant-TW", "utf-8", "gzip", "*", '"0.5"', ";*=", ";*0=", ";="]
 G_CC = ["max-age=", "max-stale", "min-fresh=", "s-maxage=", "no-cache", "private=", "no-store", "0", "3600", "-1", "x",
         '"a, b"', ", ", "k*=", "UTF-8''%FF", "stale-if-error="]
 G_CSP = ["default-src ", "script-src", "sandbox", "'self'", "; ", ";", "*"]
@@ -219,9 +221,48 @@ def props(cls):
 LIGHT = [False]
 
 
+class RedumpError(Exception):
+    """printing / re-serialising a parsed value raised: carries the original exception"""
+
+    def __init__(self, what, orig):
+        super().__init__(f"{what}: {orig!r}")
+        self.what = what
+        self.orig = orig
+
+
+_REDUMP_TYPES = None
+
+
+def redump(v):
+    """Parse-then-print: a parsed value that cannot be shown (repr / str, used by logging and debuggers) or
+    serialised back (to_header) is not a usable value of its documented type."""
+    global _REDUMP_TYPES
+    if _REDUMP_TYPES is None:
+        _REDUMP_TYPES = (Accept, _CacheControl, ContentSecurityPolicy, ETags, Range, IfRange, ContentRange, HeaderSet,
+                         Authorization, WWWAuthenticate, MultiDict, CombinedMultiDict, UserAgent, Headers, FileStorage)
+    if not isinstance(v, _REDUMP_TYPES):
+        return
+    for what, f in (("repr", repr), ("str", str), ("to_header", lambda x: x.to_header() if hasattr(x, "to_header") else None)):
+        try:
+            f(v)
+        except BudgetExceeded:
+            raise
+        except Exception as e:  # noqa: BLE001
+            raise RedumpError(what, e) from None
+
+
 def touch(v):
-    """Read what an application reads from a parsed value (lazy conversions live there)."""
+    """Read what an application reads from a parsed value (lazy conversions live there), then print it."""
+    _touch(v)
+    redump(v)
+
+
+def _touch(v):
     if v is None or isinstance(v, (str, bytes, int, float, bool)):
+        return
+    if isinstance(v, FileStorage):
+        v.filename, v.name, v.content_type, v.content_length, v.mimetype, v.mimetype_params
+        touch(v.headers)
         return
     if isinstance(v, Accept):
         offers = OFFERS.get(type(v), OFFERS[Accept])
@@ -300,7 +341,9 @@ def touch(v):
         v.getlist("a")
         return
     if isinstance(v, MultiDict):
-        list(v.items(multi=True))
+        for _k, x in list(v.items(multi=True)):
+            if isinstance(x, FileStorage):
+                touch(x)
         v.get("a")
         v.getlist("a")
         return
@@ -313,7 +356,7 @@ def touch(v):
         return
     if isinstance(v, tuple):
         for x in v:
-            touch(x)
+            _touch(x)
         return
     if isinstance(v, dict):
         list(v.items())
@@ -363,6 +406,55 @@ SINKS = {
     "unquote_etag": (_s(http.unquote_etag), X_ETAG),
     "unquote_header_value": (_s(http.unquote_header_value), X_NONE),
 }
+# parameter shapes: every options-carrying parser / variable gets parameters whose NAME is empty, only an RFC 2231
+# marker, a marker-only continuation, or a real name with markers, crossed with token / quoted / empty / charset values
+P_NAMES = ["", "*", "*0", "*0*", "*1", "*1*", "**", "k*", "k*0", "k*0*", "k*1", "k", "q", "q*", "K*"]
+P_VALUES = ["v", '"v"', '""', "", "UTF-8''v", "''v", "x''v", "UTF-8''%FF", "0.5", '"a;b"']
+P_TAILS = ["", ";q=0.5", ";*=w", "; k=w", ",b", ';k*1="w"', ", *0=w"]
+# (heads, separators) per kind of grammar
+P_KIND = {
+    "options": (["a", "text/html", "form-data", "multipart/form-data", "*/*"], [";", "; ", " ;"]),
+    "accept": (["a", "text/html", "*/*", "en-US", "utf-8"], [";", "; ", ";q=0.5;"]),
+    "dict": (["", "a=b", "max-age=1", "no-cache", "Digest realm=r", "Basic QTpi", "Bearer"], [", ", ",", " ", ""]),
+    "cookie": (["", "a=b", 'a="b"'], ["; ", ";", ""]),
+    "list": (["", "a", '"a"'], [", ", ";"]),
+}
+P_OF = {
+    "parse_options_header": "options", "CONTENT_TYPE": "options",
+    "parse_accept_header[Accept]": "accept", "parse_accept_header[MIMEAccept]": "accept",
+    "parse_accept_header[LanguageAccept]": "accept", "parse_accept_header[CharsetAccept]": "accept",
+    "HTTP_ACCEPT": "accept", "HTTP_ACCEPT_LANGUAGE": "accept", "HTTP_ACCEPT_CHARSET": "accept",
+    "HTTP_ACCEPT_ENCODING": "accept",
+    "parse_dict_header": "dict", "parse_cache_control_header[Request]": "dict",
+    "parse_cache_control_header[Response]": "dict", "HTTP_CACHE_CONTROL": "dict",
+    "Authorization.from_header": "dict", "WWWAuthenticate.from_header": "dict", "HTTP_AUTHORIZATION": "dict",
+    "http.parse_cookie(str)": "cookie", "http.parse_cookie(environ)": "cookie", "sansio.http.parse_cookie": "cookie",
+    "HTTP_COOKIE": "cookie",
+    "parse_list_header": "list", "parse_set_header": "list", "parse_csp_header": "list", "parse_etags": "list",
+    "HTTP_PRAGMA": "list", "HTTP_X_FORWARDED_FOR": "list", "HTTP_ACCESS_CONTROL_REQUEST_HEADERS": "list",
+    "HTTP_IF_MATCH": "list", "HTTP_IF_NONE_MATCH": "list",
+}
+
+
+def param_inputs(kind, head_index, tails=P_TAILS):
+    heads, seps = P_KIND[kind]
+    head = heads[head_index]
+    seen = set()
+    for sep in seps:
+        for n in P_NAMES:
+            for val in P_VALUES:
+                for tail in tails:
+                    s_ = f"{head}{sep}{n}={val}{tail}"
+                    if s_ not in seen:
+                        seen.add(s_)
+                        yield s_
+            # the bare name without '=' as well
+            s_ = f"{head}{sep}{n}"
+            if s_ not in seen:
+                seen.add(s_)
+                yield s_
+
+
 GRAMMAR = {
     "parse_options_header": G_OPT, "parse_list_header": G_LIST, "parse_dict_header": G_CC, "parse_set_header": G_LIST,
     "parse_accept_header[Accept]": G_ACC, "parse_accept_header[MIMEAccept]": G_ACC,
@@ -382,6 +474,8 @@ GRAMMAR = {
     "HTTP_PRAGMA": G_LIST, "HTTP_ACCESS_CONTROL_REQUEST_HEADERS": G_LIST, "HTTP_MAX_FORWARDS": G_CL,
     "HTTP_TRANSFER_ENCODING": G_TE,
 }
+GQUICK_SHALLOW = {"HTTP_ACCEPT_CHARSET", "HTTP_ACCEPT_ENCODING", "HTTP_IF_NONE_MATCH", "HTTP_IF_UNMODIFIED_SINCE", "HTTP_DATE",
+                  "HTTP_PRAGMA", "HTTP_ACCESS_CONTROL_REQUEST_HEADERS", "HTTP_MAX_FORWARDS"}
 GDEEP_VARS = ("HTTP_HOST", "CONTENT_TYPE", "CONTENT_LENGTH", "QUERY_STRING", "PATH_INFO", "HTTP_COOKIE")
 
 
@@ -749,8 +843,10 @@ def units(tier):
         if var not in GRAMMAR:
             continue
         n = len(galphabet(var))
+        # quick: variables that go straight into a parser another variable already drives at depth 3 stay at depth 2
+        d_env = 2 if (not T and var in GQUICK_SHALLOW) else 3
         for i in range(n):
-            us.append(("genv", var, i, None, 3, "all" if T else "deps"))
+            us.append(("genv", var, i, None, d_env, "all" if T else "deps"))
             if T and var in GDEEP_VARS:
                 for j in range(0, n, 8):
                     us.append(("genv", var, i, (j, min(n, j + 8)), 4, "deps"))
@@ -769,6 +865,9 @@ def units(tier):
             us.append(("storage", var, (i, min(n, i + 8))))
     for i in range(len(MP_CD)):
         us.append(("mpart", i))
+    for name, kind in P_OF.items():
+        for hi in range(len(P_KIND[kind][0])):
+            us.append(("params", name, hi, "all" if T else "deps"))
     for var in ("CONTENT_LENGTH", "HTTP_TRANSFER_ENCODING", "CONTENT_TYPE"):
         n = len(galphabet(var))
         for i in range(0, n, 8):
@@ -805,10 +904,14 @@ MP_CD = [
     'form-data; name="a"', 'form-data; name="a"; filename="f"', "form-data; name*=UTF-8''%FF", "form-data; name=a; filename*0*=x''%FF",
     "form-data", "\xff", "", "attachment; name=a", 'form-data; name="a\\"b"; filename="c:\\d"', "form-data; name=a; filename=",
     'form-data; name="\xff"; filename="\xff"', "form-data; name=a; name=b", None,
+    "form-data; *=x; name=a", "form-data; name=a; *0=x", "form-data; *0*=UTF-8''x; name=a", "form-data; =x; name=a",
+    "form-data; name*=; filename*=", "form-data; name*0=a; name*1=b; filename*0*=UTF-8''%FF; filename*1=c",
+    'form-data; name*=""', "form-data; name=a; filename*=x''y", "form-data; NAME*=UTF-8''a; FileName=b",
 ]
 MP_CT = [None, "text/plain", "text/plain; charset=utf-8", "text/plain; charset=iso-8859-1", "text/plain; charset=US-ASCII",
          "text/plain; charset=\xff", "text/plain; charset=utf-16", "text/plain; charset=zip", "\xff/\xff", "; charset=ascii",
-         'a; charset="us-ascii"', "text/plain; charset*=UTF-8''utf-8"]
+         'a; charset="us-ascii"', "text/plain; charset*=UTF-8''utf-8", "text/plain; *=utf-8", "text/plain; *0=x; charset=utf-8",
+         "text/plain; charset*=''", "text/plain; =utf-8"]
 MP_CL = [None, "x", "5", "-1", "\xff", "99999999999999999999"]
 MP_DATA = [b"v", b"\xff", b"", b"\xc3", b"\xe9 \x80"]
 MP_HDR_STYLE = ["Content-Disposition", "content-disposition", "CONTENT-DISPOSITION "]
@@ -826,6 +929,13 @@ def mp_body(cd, ct, cl, data, style=0, nl=b"\r\n"):
 
 
 # ------------------------------------------------------------------ evaluation
+
+def exc_name(e):
+    """(name for signatures, exception whose traceback matters): 'redump:<what>:<Type>' for print / re-serialise failures"""
+    if isinstance(e, RedumpError):
+        return f"redump:{e.what}:{type(e.orig).__name__}", e.orig
+    return type(e).__name__, e
+
 
 def tb_funcs(e):
     """module.function of the innermost frames outside the harness (no source lookup: this is hot for Host)."""
@@ -883,10 +993,11 @@ def eval_sink(ctx, name, f, v, family="sink"):
                         {"kind": "sink", "site": name, "input": v, "exc": "BudgetExceeded", "tb": [], "family": family})
     except Exception as e:  # noqa: BLE001 - this is the property
         _SLOT[0] = None
-        ctx.outcomes.add((name, "exc", type(e).__name__))
-        ctx.R.violation(f"sink:{name}:{type(e).__name__}",
-                        {"kind": "sink", "site": name, "input": v, "exc": type(e).__name__, "msg": str(e)[:200],
-                         "tb": tb_funcs(e), "family": family})
+        en, e0 = exc_name(e)
+        ctx.outcomes.add((name, "exc", en))
+        ctx.R.violation(f"sink:{name}:{en}",
+                        {"kind": "sink", "site": name, "input": v, "exc": en, "msg": str(e0)[:200],
+                         "tb": tb_funcs(e0), "family": family})
     _SLOT[0] = None
 
 
@@ -934,10 +1045,11 @@ def eval_request(ctx, vars_, body=BODY, config="default", family="env", sites=SI
                              "exc": "BudgetExceeded", "tb": [], "family": family})
         except Exception as e:  # noqa: BLE001 - this is the property
             _SLOT[0] = None
-            ctx.outcomes.add((site, "exc", type(e).__name__))
-            ctx.R.violation(f"env:{label}.{site}:{type(e).__name__}",
+            en, e0 = exc_name(e)
+            ctx.outcomes.add((site, "exc", en))
+            ctx.R.violation(f"env:{label}.{site}:{en}",
                             {"kind": "env", "vars": dict(vars_), "body": body, "config": config, "site": site,
-                             "exc": type(e).__name__, "msg": str(e)[:200], "tb": tb_funcs(e), "family": family})
+                             "exc": en, "msg": str(e0)[:200], "tb": tb_funcs(e0), "family": family})
     _SLOT[0] = None
 
 
@@ -1125,6 +1237,20 @@ def _run(unit, kind, R, ctx, tier):
             for v in seqs_from(alpha, fi, 2):
                 eval_request(ctx, {var: v}, config="plain_storage")
         return
+    if kind == "params":
+        _k, name, hi, which = unit
+        R.use("params:" + P_OF[name])
+        if name in SINKS:
+            f = SINKS[name][0]
+            for v in param_inputs(P_OF[name], hi):      # parsers are cheap: all tails in both tiers
+                eval_sink(ctx, name, f, v, family="params")
+                R.nontrivial((name, v))
+        else:
+            sites = SITES if which == "all" else site_deps()[name]
+            for v in param_inputs(P_OF[name], hi, P_TAILS if which == "all" else P_TAILS[:3]):
+                eval_request(ctx, {name: v}, family="params", sites=sites)
+                R.nontrivial((name, v))
+        return
     if kind == "limits":
         _k, var, (f0, f1) = unit
         alpha = galphabet(var)
@@ -1208,6 +1334,7 @@ def finalize(R, tier):
     need |= {"pair:" + "+".join(sorted(p)) for p in PAIRS}
     need |= {"sites:all", "sites:deps", "order:reverse", "server-variant", "config:plain_storage", "config:trusted_str",
              "mpart", "config:limits"}
+    need |= {"params:" + k for k in P_KIND}
     need |= {"gsink:" + n for n in SINKS} | {"genv:" + v for v in VARS if v in GRAMMAR}
     for name, atoms in GRAMMAR.items():
         for a in list(atoms) + NASTY:
@@ -1381,7 +1508,40 @@ def _f_date_overflow(rec):
     return var is not None and bool(_LONG_DIGITS.search(rec["vars"].get(var) or ""))
 
 
+_BARE_STAR_KEY = re.compile(r"(^|[,\s])\*\s*(=|,|$)")
+
+
+def _text_of(rec, var):
+    return rec["input"] if rec["kind"] == "sink" else (rec["vars"].get(var) or "")
+
+
+def _f_dict_star_key(rec):
+    """parse_dict_header turns a key that is only '*' into the empty key; printing / dumping the result indexes key[-1]"""
+    if not (rec["exc"].startswith("redump:") and rec["exc"].endswith(":IndexError") and rec["tb"][-1:] == ["http.dump_header"]):
+        return False
+    if rec["kind"] == "sink":
+        ok = rec["site"] in ("Authorization.from_header", "WWWAuthenticate.from_header",
+                             "parse_cache_control_header[Request]", "parse_cache_control_header[Response]")
+        text = rec["input"]
+    else:
+        var = {"authorization": "HTTP_AUTHORIZATION", "cache_control": "HTTP_CACHE_CONTROL"}.get(rec["site"])
+        ok = var is not None
+        text = rec["vars"].get(var) or "" if ok else ""
+    return ok and bool(_BARE_STAR_KEY.search(text))
+
+
+def _f_ifrange_quote(rec):
+    """If-Range value with a double quote inside the entity-tag: parsed, but IfRange.to_header / str / repr raise"""
+    if not (rec["exc"].startswith("redump:") and rec["exc"].endswith(":ValueError") and rec["tb"][-1:] == ["http.quote_etag"]):
+        return False
+    if rec["kind"] == "sink":
+        return rec["site"] == "parse_if_range_header" and '"' in rec["input"]
+    return rec["site"] == "if_range" and '"' in (rec["vars"].get("HTTP_IF_RANGE") or "")
+
+
 FINDINGS = {
+    "C07-dict-star-only-key-redump-indexerror": _f_dict_star_key,
+    "C07-if-range-quote-in-etag-redump-valueerror": _f_ifrange_quote,
     "C07-parse-date-overflowerror": _f_date_overflow,
     "C07-trusted-hosts-idna-unicodeerror": _f_trusted,
     "C07-authorization-basic-non-ascii": _f_auth,
